@@ -2751,7 +2751,11 @@ func (x *xl) assignValues(t *ast.AssignStmt, vs []tx) string {
 		if c, ok := r.(*ast.CallExpr); ok {
 			if id, ok := c.Fun.(*ast.Ident); ok && id.Name == "append" {
 				if _, isVar := x.lookup("append"); !isVar {
-					if exprString(t.Lhs[i]) != exprString(c.Args[0]) || t.Tok == token.DEFINE {
+					capped := false
+					if se, ok := unparen(c.Args[0]).(*ast.SliceExpr); ok && isCappedSlice(se) {
+						capped = true // y := append(x[:len(x):len(x)], …) copies: x is not written, y is a slice of its own
+					}
+					if !capped && (exprString(t.Lhs[i]) != exprString(c.Args[0]) || t.Tok == token.DEFINE) {
 						x.fail(t, "append must have the form x = append(x, …)")
 					}
 				}
